@@ -541,7 +541,12 @@ def run(ctx):
 def replay(ctx, path):
     from harness.common import REPO
 
-    obj = json.loads(Path(path).read_text())
+    path = Path(path)
+    if not path.exists() and not path.is_absolute():
+        from harness.common import VERIF
+
+        path = VERIF / path
+    obj = json.loads(path.read_text())
     print(json.dumps({k: v for k, v in obj.items() if k != "replay"}, indent=1)[:1500])
     r = obj.get("replay") or {}
     if "cell" not in r:
